@@ -499,6 +499,7 @@ mod replay {
     pub struct Replayer {
         pub w: World,
         pub skipped: u64,
+        pub relabelled: u64,
         pub applied: u64,
         pub mismatched_outcome: u64,
         pub tsig_cache: HashMap<String, validator::Signed<ReplicaTimeout>>,
@@ -633,7 +634,24 @@ mod replay {
         fn just(&mut self, j: &Value) -> Option<ProposalJustification> {
             match j["k"].as_str()? {
                 "c" => self.commit_qc(&j["cq"]).map(ProposalJustification::Commit),
-                "t" => self.timeout_qc(&j["tq"]).map(ProposalJustification::Timeout),
+                "t" => {
+                    if let Some(t) = self.timeout_qc(&j["tq"]) {
+                        return Some(ProposalJustification::Timeout(t));
+                    }
+                    // not formable from votes of its own view: a Byzantine sender can still RELABEL a certificate formable for an
+                    // earlier view with the same derived content (the aggregate stays genuine); verification must refuse it
+                    let view = j["tq"]["view"].as_u64()?;
+                    for ov in (0..view).rev() {
+                        let mut t = j["tq"].clone();
+                        t["view"] = json!(ov);
+                        if let Some(mut qc) = self.timeout_qc(&t) {
+                            qc.view = self.w.c.view(view);
+                            self.relabelled += 1;
+                            return Some(ProposalJustification::Timeout(qc));
+                        }
+                    }
+                    None
+                }
                 _ => None,
             }
         }
@@ -852,11 +870,12 @@ async fn run_replay(scn_path: &str, trace: &str, report: &str) {
             }
         }
     }
-    let mut rp = replay::Replayer { w: d.w, skipped: 0, applied: 0, mismatched_outcome: 0, tsig_cache: Default::default() };
+    let mut rp = replay::Replayer { w: d.w, skipped: 0, relabelled: 0, applied: 0, mismatched_outcome: 0, tsig_cache: Default::default() };
     for a in scn["acts"].as_array().unwrap() {
         rp.act(a).await;
     }
     let (skipped, applied, mism) = (rp.skipped, rp.applied, rp.mismatched_outcome);
+    let relabelled = rp.relabelled;
     d.w = rp.w;
     d.seen_emitted = 0;
     d.pool.clear();
@@ -875,6 +894,7 @@ async fn run_replay(scn_path: &str, trace: &str, report: &str) {
     rep.distinct = applied;
     rep.add("applied", applied);
     rep.add("skipped", skipped);
+    rep.add("relabelled_certificates", relabelled);
     rep.add("outcome_differs", mism);
     rep.add("events", d.w.log.len() as u64);
     rep.add("stuck", d.w.stuck);
